@@ -16,7 +16,8 @@ theorem fact_translated_all :
       "keeper_Keeper_SetGasUsedForCurrentTxTransient", "keeper_Keeper_GetGasUsedForTdxIndexTransient",
       "keeper_Keeper_SetLogCountForCurrentTxTransient", "keeper_Keeper_GetCumulativeLogCountTransient",
       "keeper_erc20CustomPrecompiledContractRwTransferFrom_spendAllowance", "types_BlockGasLimit",
-      "misc_CalcBaseFee", "core_IntrinsicGas", "keeper_Keeper_CalculateBaseFee", "types_addUint64Overflow",
+      "vm_CustomPrecompiledContract_RunCustom", "vm_CustomPrecompiledContractMethod_Validate", "misc_CalcBaseFee",
+      "core_IntrinsicGas", "keeper_Keeper_CalculateBaseFee", "types_addUint64Overflow",
       "types_infiniteGasMeterWithLimit_ConsumeGas", "types_infiniteGasMeterWithLimit_RefundGas",
       "keeper_Keeper_ResetGasMeterAndConsumeGas", "keeper_Keeper_GetBaseFee", "keeper_validateDeployer",
       "duallane_DLExtensionOptionsDecorator_AnteHandle", "duallane_DLTxTimeoutHeightDecorator_AnteHandle",
